@@ -12,7 +12,7 @@ EXTENDS Integers, Sequences, FiniteSets, TLC, Json, IOUtils
 Rec == ndJsonDeserialize(IOEnv.TRACE)
 VARIABLES l, run, cfg, viol, hits, nruns, learned, lastDisc, acc, wpos, rxq
 vars == <<l, run, cfg, viol, hits, nruns, learned, lastDisc, acc, wpos, rxq>>
-Rules == {"N1", "N2", "N3", "N4", "D1", "D2", "D3", "D4", "D5", "D6", "E2", "E3", "Q2", "PANIC"}
+Rules == {"N1", "N2", "N3", "N4", "D1", "D2", "D3", "D4", "D5", "D6", "E2", "E3", "K2", "Q2", "PANIC"}
 SOCKS == {0, 1, 2, 3, 4}  \* two UDP sockets, an ICMP socket bound to an identifier, a raw socket, a raw socket of the other family
 Add(v, x) == IF Len(v) >= 24 THEN v ELSE Append(v, x)
 RECURSIVE AddAll(_, _)
@@ -97,7 +97,10 @@ OutStep(a, o, now) ==
            n1 == P("N1", ~uni \/ nh = <<>> \/ known, <<o.dst, o.dmac, IF stale THEN "expired" ELSE IF ~o.dmu THEN "non-unicast-mac" ELSE "never-learned">>)
            e3 == P("E3", (o.src \in MyIps \/ ("exempt" \in DOMAIN o /\ o.exempt)) /\ o.smac = cfg.my_mac, <<"ip", o.src>>)
            isMine == "sk" \in DOMAIN o /\ o.did >= 0
-       IN IF ~isMine THEN [a EXCEPT !.v = @ \o e2 \o n2 \o n1 \o e3]
+           \* K2 (C08): the transport checksum of an emitted packet verifies; a UDP checksum field of zero is never emitted
+           \* (the stack computes checksums: a sum that comes out as zero is transmitted as 0xffff)
+           kk2 == P("K2", ("cs" \notin DOMAIN o \/ o.cs) /\ ~("cs0" \in DOMAIN o /\ o.cs0), <<o.dst, IF "cs0" \in DOMAIN o /\ o.cs0 THEN "zero-udp-checksum" ELSE "checksum">>)
+       IN IF ~isMine THEN [a EXCEPT !.v = @ \o e2 \o n2 \o n1 \o e3 \o kk2]
           ELSE LET s == o.sk
                    q == acc[s]
                    pos == a.wpos[s]
@@ -110,7 +113,7 @@ OutStep(a, o, now) ==
                          ELSE IF j # 0 /\ j <= pos THEN << <<l, "D2", s, o.did>> >>          \* already transmitted once
                          ELSE << <<l, "D1", s, o.did, j, pos>> >>                              \* out of queue order / unknown
                    d4 == IF j = 0 THEN <<>> ELSE P("D4", o.pd = -1 /\ o.size = q[j].size /\ o.dst = q[j].dst /\ o.dport = q[j].dport /\ o.cs /\ o.wf, <<s, o.did, o.pd, o.size>>)
-               IN [a EXCEPT !.wpos[s] = IF j > pos THEN j ELSE @, !.v = @ \o e2 \o n2 \o n1 \o e3 \o d1 \o d4]
+               IN [a EXCEPT !.wpos[s] = IF j > pos THEN j ELSE @, !.v = @ \o e2 \o n2 \o n1 \o e3 \o kk2 \o d1 \o d4]
   ELSE [a EXCEPT !.v = @ \o e2]
 RECURSIVE OutFold(_, _, _)
 OutFold(a, outs, now) == IF outs = <<>> THEN a ELSE OutFold(OutStep(a, Head(outs), now), Tail(outs), now)
